@@ -5,10 +5,31 @@ package core
 func ShrinkSeq[T any](seq []T, simpler func(T) []T, fails func([]T) bool) []T {
 	cur := append([]T{}, seq...)
 	budget := 4000
+	// cheap first: a single element or a pair that fails on its own is already (nearly) minimal
+	if len(cur) > 1 && len(cur) <= 64 {
+	small:
+		for i := range cur {
+			if fails([]T{cur[i]}) {
+				cur = []T{cur[i]}
+				break small
+			}
+		}
+		if len(cur) > 2 && len(cur) <= 24 {
+		pairs:
+			for i := range cur {
+				for j := i + 1; j < len(cur); j++ {
+					if fails([]T{cur[i], cur[j]}) {
+						cur = []T{cur[i], cur[j]}
+						break pairs
+					}
+				}
+			}
+		}
+	}
 	for changed := true; changed && budget > 0; {
 		changed = false
 		// delete chunks, large to small
-		for sz := len(cur) / 2; sz >= 1; sz /= 2 {
+		for sz := len(cur) - 1; sz >= 1; sz = nextSize(sz, len(cur)) {
 			for i := 0; i+sz <= len(cur) && budget > 0; {
 				cand := append(append([]T{}, cur[:i]...), cur[i+sz:]...)
 				budget--
@@ -39,4 +60,11 @@ func ShrinkSeq[T any](seq []T, simpler func(T) []T, fails func([]T) bool) []T {
 		}
 	}
 	return cur
+}
+
+func nextSize(sz, n int) int {
+	if n <= 16 {
+		return sz - 1
+	}
+	return sz / 2
 }
